@@ -117,9 +117,9 @@ def check(run):
         det = s.details.get(seq, {})
         key = dict(clause=clause, op=ev['op'], q=ev.get('q'), template=s.template, nan=det.get('nan'),
                    isolated_fixed=any(det.get('isolated_fixed', [])) if det else None)
-        if clause in ('opt-report', 'opt-split', 'opt-verbose', 'opt-raised'):
+        if clause in ('opt-report', 'opt-split', 'opt-verbose', 'opt-raised', 'opt-fresh'):
             continue        # the report / stopping rule is C12's property
-        if clause in ('opt-str', 'construct-gradient-index') or clause.startswith('reload-'):
+        if clause in ('opt-str', 'construct-gradient-index', 'query-fresh') or clause.startswith('reload-'):
             # behaviour specified beyond the listed properties (DESIGN.md section 6): recorded, never a verdict of this property
             run.notes.setdefault('beyond_list_rejections', []).append([sid, seq, clause])
             continue
